@@ -29,6 +29,37 @@ def _switch_case_of(fn, inst):
     return out
 
 
+def _only_for_code(pdb, fn, store, code, retsets):
+    """the store is reached for error code `code` and for no other code (evaluated per code value)"""
+    def is_code(pe):
+        return vf.last_field(pe) == "pdu_error.error_code"
+    reached = {}
+    for c in range(0, 12):
+        hit = []
+
+        def classify(inst, E, st):
+            if inst is store:
+                hit.append(1)
+            return None
+        es.count_effects(fn, pdb, classify, retsets, values=lambda pe, c=c: (c if is_code(pe) else None))
+        reached[c] = bool(hit)
+    return reached.get(code) and not any(v for k, v in reached.items() if k != code)
+
+
+def _followed_by_state(pdb, fn, store, want, retsets):
+    """on every path from `store` to a return the socket state is changed to `want` (value decided on that path)"""
+    def classify(inst, E, st):
+        if inst is store:
+            return ["=vs:1"]
+        if inst.op == "call" and inst.callee == fsm.CHANGE and st.get("vs") == "1":
+            v = flow.av_single(E.val(inst.args[1]))
+            return ["=to:%s" % v]
+        return None
+    outs, fl = es.count_effects(fn, pdb, classify, retsets, cap=96)
+    sel = [o for o in outs if o["counts"].get("vs") == "1"]
+    return bool(sel) and all(o["counts"].get("to") == str(want) for o in sel)
+
+
 def r1(ctx, retsets):
     pdb = ctx.pdb
     ctx.rule("C13.R1", "every store to the negotiated version outside rtr_init lowers it: constant below the value the "
@@ -48,31 +79,30 @@ def r1(ctx, retsets):
                       key="C13.R1:init")
             continue
         guards = [(vf.expr(fn, c), t) for c, t, br in es.guards_of(fn, s)]
+        G = es.Guards(fn, s)
         cur = ("load", ("fld", vf.root_of(vf.expr(fn, s["ptr"])), "rtr_socket.version"))
         lowered = False
         why = ""
         if v[0] == "c":
-            for g, t in guards:
-                if g[0] == "icmp":
-                    p, a, b = g[1], g[2], g[3]
-                    if t and p == "eq" and {a, b} >= {cur} and any(x[0] == "c" and x[1] > v[1] for x in (a, b)):
-                        lowered, why = True, "constant %d under %s" % (v[1], vf.show(g))
-                    if t and p in ("ugt", "sgt") and a == cur and b[0] == "c" and b[1] >= v[1]:
-                        lowered, why = True, "constant %d under %s" % (v[1], vf.show(g))
+            pins = [b for (a, b) in G.find_eq(lambda x: x == cur, lambda y: y[0] == "c") if b[1] > v[1]]
+            above = [a for (r, a, b) in G.rel if r == "lt" and b == cur and a[0] == "c" and a[1] >= v[1]] + \
+                    [a for (r, a, b) in G.rel if r == "le" and b == cur and a[0] == "c" and a[1] > v[1]]
+            if pins or above:
+                lowered, why = True, "constant %d while the current version is %s" % (v[1], ("== %d" % pins[0][1]) if pins else ("> %d" % above[0][1]))
             kind = "first-pdu"
         elif v[0] == "bin" and v[1] in ("sub", "add") and v[2] == cur and v[3][0] == "c" and \
                 ((v[1] == "sub" and v[3][1] > 0) or (v[1] == "add" and v[3][1] < 0)):
             dec = abs(v[3][1])
-            for g, t in guards:
-                if g[0] == "icmp" and t and g[2] == cur and g[3][0] == "c" and \
-                        ((g[1] in ("ugt", "sgt") and g[3][1] >= MIN + dec - 1) or (g[1] in ("uge", "sge") and g[3][1] >= MIN + dec)):
-                    lowered, why = True, "current-%d under %s" % (dec, vf.show(g))
+            lows = [a[1] + 1 for (r, a, b) in G.rel if r == "lt" and b == cur and a[0] == "c"] + [a[1] for (r, a, b) in G.rel if r == "le" and b == cur and a[0] == "c"]
+            if G.ne(cur, ("c", MIN)) and MIN == 0:
+                lows.append(1)
+            if lows and max(lows) >= MIN + dec:
+                lowered, why = True, "current-%d while current >= %d" % (dec, max(lows))
             kind = "hang-up"
         else:
-            lt = any(g[0] == "icmp" and t and ((g[1] in ("ult", "slt") and g[2] == v and g[3] == cur) or
-                                               (g[1] in ("ugt", "sgt") and g[3] == v and g[2] == cur)) for g, t in guards)
-            lo = any(g[0] == "icmp" and t and g[1] in ("sge", "uge") and g[2] == v and g[3] == ("c", MIN) for g, t in guards) or MIN == 0
-            hi = any(g[0] == "icmp" and t and g[1] in ("sle", "ule") and g[2] == v and g[3] == ("c", MAX) for g, t in guards) or lt
+            lt = G.lt(v, cur)
+            lo = G.le(("c", MIN), v) or MIN == 0
+            hi = G.le(v, ("c", MAX)) or lt
             lowered = lt and lo and hi
             why = "%s under received<current=%s, >=min=%s, <=max=%s" % (vf.show(v), lt, lo, hi)
             kind = "error-report"
@@ -84,26 +114,25 @@ def r1(ctx, retsets):
         triggers.add(kind)
         if kind == "first-pdu":
             gs = [vf.show(g) for g, t in guards]
-            flag = any(g == ("load", HRP) and not t for g, t in guards) or any(vf.mentions(g, lambda x: x == ("load", HRP)) and not t for g, t in guards)
-            noterr = any(g[0] == "icmp" and ((g[1] == "ne" and t) or (g[1] == "eq" and not t)) and ("c", 10) in (g[2], g[3]) for g, t in guards)
-            hv = any(g[0] == "icmp" and t and g[1] == "eq" and ("c", v[1]) in (g[2], g[3]) and
-                     any((vf.last_field(x[1]) if x[0] == "load" else "") == "pdu_header.ver" for x in (g[2], g[3])) for g, t in guards)
+            G = es.Guards(fn, s)
+            is_hdr = lambda f_: (lambda x: x[0] == "load" and vf.last_field(x[1]) == "pdu_header." + f_)
+            flag = G.zero(("load", HRP)) or G.false(lambda e: vf.mentions(e, lambda x: x == ("load", HRP)))
+            noterr = bool(G.find_ne(is_hdr("type"), lambda y: y == ("c", 10)))
+            hv = bool(G.find_eq(is_hdr("ver"), lambda y: y == ("c", v[1])))
             ctx.check(flag and noterr and hv, "C13.R1", "first-pdu-downgrade:conditions", s.loc(),
                       "first PDU of the connection=%s, not an Error Report=%s, header carries exactly the lower version=%s" % (flag, noterr, hv),
                       key="C13.R1:first-pdu:conditions")
         elif kind == "error-report":
-            cases = _switch_case_of(fn, s)
-            on4 = any(k == rfc8210.ERROR_CODES["unsupported protocol version"] for t, k in cases)
-            nxt = [c for c in fn.calls(fsm.CHANGE) if fn.dom(s, c) and c.block.id == s.block.id]
-            fast = bool(nxt) and vf.expr(fn, nxt[0].args[1]) == ("c", st["RTR_FAST_RECONNECT"])
+            on4 = _only_for_code(pdb, fn, s, rfc8210.ERROR_CODES["unsupported protocol version"], retsets)
+            fast = _followed_by_state(pdb, fn, s, st["RTR_FAST_RECONNECT"], retsets)
             ctx.check(on4 and fast, "C13.R1", "error-report-downgrade:conditions", s.loc(),
                       "only for error code 4=%s, followed by RTR_FAST_RECONNECT=%s" % (on4, fast), key="C13.R1:error-report:conditions")
         elif kind == "hang-up":
             closed = pdb.enum_value("TR_CLOSED")
-            c1 = any(g[0] == "icmp" and t and g[1] == "eq" and g[3] == ("c", closed) and g[2][0] == "call" and g[2][1] == "rtr_receive_pdu" for g, t in guards)
-            c2 = any(g == ("load", ("fld", SOCK, "rtr_socket.request_session_id")) and t for g, t in guards)
-            nxt = [c for c in fn.calls(fsm.CHANGE) if fn.dom(s, c) and c.block.id == s.block.id]
-            fast = bool(nxt) and vf.expr(fn, nxt[0].args[1]) == ("c", st["RTR_FAST_RECONNECT"])
+            G = es.Guards(fn, s)
+            c1 = bool(G.find_eq(lambda x: x[0] == "call" and x[1] == "rtr_receive_pdu", lambda y: y == ("c", closed)))
+            c2 = G.nonzero(("load", ("fld", SOCK, "rtr_socket.request_session_id")))
+            fast = _followed_by_state(pdb, fn, s, st["RTR_FAST_RECONNECT"], retsets)
             ctx.check(c1 and c2 and fast, "C13.R1", "hang-up-downgrade:conditions", s.loc(),
                       "connection closed=%s, no session yet=%s, followed by RTR_FAST_RECONNECT=%s" % (c1, c2, fast), key="C13.R1:hang-up:conditions")
     for k in ("first-pdu", "error-report", "hang-up"):
@@ -196,10 +225,6 @@ def r3(ctx, retsets):
                       key="C13.R3:equal")
     if not seen_cmp:
         raise AnalysisBroken("rtr_receive_pdu: comparison of the header version with the negotiated version not found")
-    # the version test precedes the payload receive on every path
-    recvs = fn.calls("tr_recv_all")
-    ctx.check(len(recvs) == 2 and all(fn.dom(c, recvs[1]) for c in set(seen_cmp)), "C13.R3", "version-test-dominates-payload",
-              recvs[-1].loc(), "the version comparison dominates the payload receive", key="C13.R3:order")
 
 
 def belief_contradictions(pdb, retsets, units):
